@@ -100,7 +100,7 @@ def scen_from_behaviour(beh, idx, rng, plat, two_ctx):
             seed += 1
             op = {'op': a['k'], 'b': b, 'off': off, 'n': R(a['va'] + a['n']) - R(a['va']), 'ctx': a['c'], 'seed': seed}
             if plat == 'bench':
-                op['q'] = a['c']        # enqueue only: the answers come from the behaviour's Handle steps
+                op['q'] = 100 * a.get('q', 1) + 10 * a['c']   # enqueue only: the answers come from the Handle steps
             ops.append(op)
         elif k == 'Kern':
             w = sorted(a['w'])
@@ -109,10 +109,12 @@ def scen_from_behaviour(beh, idx, rng, plat, two_ctx):
             op = {'op': 'kern', 'ctx': a['c'], 'gpu': a['g'], 'dst': b, 'doff': off // 4 * 4,
                   'src': 90, 'soff': 0, 'n': max(4, min(n, P))}
             if plat == 'bench':
-                op['q'] = 10 + a['c'] * 2 + a['g']
+                op['q'] = 100 * a.get('q', 1) + 10 * a['c'] + a['g']
             ops.append(op)
-        elif k == 'Handle' and plat == 'bench':
-            ops.append({'op': 'env', 'g': a['g']})
+        elif k == 'Handle' and plat == 'bench' and a.get('k') != 'launch':
+            ops.append({'op': 'env', 'g': a['g'], 'k': 'other'})    # copies and flushes are served in order ...
+        elif k == 'KFinish' and plat == 'bench':
+            ops.append({'op': 'env', 'g': a['g'], 'k': 'launch'})   # ... a kernel finishes when the behaviour says so
     ops.append({'op': 'run', 'pol': 'fifo'})
     for i in range(nlive):
         s, n, c = bufs[i]
@@ -237,6 +239,33 @@ def targeted(thorough):
                 {'op': 'd2h', 'b': 2, 'off': 0, 'n': 4096}, {'op': 'h2d', 'b': 1, 'off': 100, 'n': 8, 'seed': 13},
                 {'op': 'kern', 'ctx': 1, 'gpu': 1, 'dst': 2, 'doff': 2048, 'src': 1, 'soff': 0, 'n': 1024},
                 {'op': 'd2h', 'b': 2, 'off': 0, 'n': 4096}]})
+    # a copy of one queue is processed while a kernel of another queue is running (its flush comes too early for
+    # the kernel's stores); afterwards the kernel's output is read back
+    for i, (nside, order) in enumerate(((1, 'copy-first'), (3, 'kernel-first'), (2, 'interleaved'))):
+        ops = [{'op': 'alloc', 'b': 1, 'n': P}, {'op': 'alloc', 'b': 2, 'n': P}, {'op': 'alloc', 'b': 3, 'n': 2 * P},
+               {'op': 'h2d', 'b': 1, 'off': 0, 'n': P, 'seed': 51}, {'op': 'h2d', 'b': 2, 'off': 0, 'n': P, 'seed': 52},
+               {'op': 'kern', 'ctx': 1, 'gpu': 1},                       # everything is dirty from here on
+               {'op': 'kern', 'ctx': 1, 'gpu': 1, 'q': 1}]               # the kernel that keeps running
+        ops += [{'op': 'h2d', 'b': 3, 'off': 7 * j, 'n': 33 + j, 'seed': 60 + j, 'q': 2} for j in range(nside)]
+        if order == 'copy-first':
+            ops += [{'op': 'env', 'g': 1, 'k': 'other'}] * (2 * nside + 1) + [{'op': 'env', 'g': 1, 'k': 'launch'}]
+        elif order == 'kernel-first':
+            ops += [{'op': 'env', 'g': 1, 'k': 'launch'}] + [{'op': 'env', 'g': 1, 'k': 'other'}] * (2 * nside)
+        else:
+            ops += [{'op': 'env', 'g': 1, 'k': 'other'}] * 2 + [{'op': 'env', 'g': 1, 'k': 'launch'}]
+        ops += [{'op': 'run', 'pol': 'fifo'}, {'op': 'd2h', 'b': 2, 'off': 0, 'n': P}, {'op': 'd2h', 'b': 1, 'off': 3, 'n': 70},
+                {'op': 'h2d', 'b': 2, 'off': 100, 'n': 9, 'seed': 70}, {'op': 'd2h', 'b': 3, 'off': 0, 'n': 2 * P}]
+        out.append({'plat': 'bench', 'gpus': 1, 'lp': 10, 'h2dc': 1, 'd2hc': 1, 'env': 'kernslow', 'seed': 7 + i,
+                    'tag': 'copy-beside-kernel-%s' % order, 'ops': ops})
+    # the same on the real timing platform: queue 1 = MemCopyD2D (3 argument copies + launch), queue 2 = N small
+    # copies into an unrelated buffer; both queues advance in lock-step, so N decides what overlaps the kernel
+    for nside in ((5,) if not thorough else (3, 4, 5, 6)):
+        ops = [{'op': 'alloc', 'b': 1, 'n': 4096}, {'op': 'alloc', 'b': 2, 'n': 4096}, {'op': 'alloc', 'b': 3, 'n': 4096},
+               {'op': 'h2d', 'b': 1, 'off': 0, 'n': 4096, 'seed': 81}, {'op': 'h2d', 'b': 2, 'off': 0, 'n': 4096, 'seed': 82},
+               {'op': 'kern', 'ctx': 1, 'gpu': 1, 'dst': 2, 'doff': 0, 'src': 1, 'soff': 0, 'n': 2048, 'q': 1}]
+        ops += [{'op': 'h2d', 'b': 3, 'off': 16 * j, 'n': 16, 'seed': 90 + j, 'q': 2} for j in range(nside)]
+        ops += [{'op': 'run'}, {'op': 'd2h', 'b': 2, 'off': 0, 'n': 4096}, {'op': 'd2h', 'b': 3, 'off': 0, 'n': 256}]
+        out.append({'plat': 'r9nano', 'gpus': 1, 'lp': 12, 'seed': 8, 'tag': 'copy-beside-kernel-r9nano-%d' % nside, 'ops': ops})
     # a GPU that only has to flush answers after the GPUs that moved the data (2..4 GPUs)
     for g in ((2, 3, 4) if thorough else (2, 4)):
         out.append({'plat': 'bench', 'gpus': g, 'lp': 10, 'h2dc': 1, 'd2hc': 1, 'env': 'flushlast', 'seed': 3,
@@ -360,40 +389,67 @@ def dma_nontrivial(recs):
 
 
 # --------------------------------------------------------------------------- binding self-test
+def _sends(recs):
+    return {r['r']: r for r in recs if r['e'] == 'Send'}
+
+
+def _starts(recs):
+    return {r['c']: r for r in recs if r['e'] == 'Start'}
+
+
 def api_corruptions():
+    """Every corruption is applied only where the result is certainly not a behaviour of MemCopyTrace (a variant
+    the specification legitimately accepts - a redundant flush dropped, a flush answer consumed after the
+    completion, a byte that happens to keep its value - must never be produced)."""
     def pick(recs, rng, pred):
-        idx = [i for i, r in enumerate(recs) if pred(r)]
+        idx = [i for i, r in enumerate(recs) if pred(i, r)]
         return rng.choice(idx) if idx else None
 
     def d2h_byte(recs, rng):          # the host receives one wrong byte
-        i = pick(recs, rng, lambda r: r['e'] == 'Done' and r['d'])
+        i = pick(recs, rng, lambda i, r: r['e'] == 'Done' and r['d'])
         if i is None:
             return None
         recs[i]['d'][rng.randrange(len(recs[i]['d']))] ^= 0x10
         return recs
 
-    def outside_byte(recs, rng):      # a byte outside the copied range changes in the storage
-        i = pick(recs, rng, lambda r: r['e'] == 'Sto' and len(r['chg']) == 1 and len(r['chg'][0][1]) > 2)
-        if i is None:
+    def outside_byte(recs, rng):      # the byte behind the copied range changes in the storage
+        if recs[0].get('cached') or any(r['e'] in ('Free', 'Panic') for r in recs):
             return None
-        recs[i]['chg'][0][1].append((recs[i]['chg'][0][1][-1] + 1) % 256)
+        sto, cands = {}, []
+        for i, r in enumerate(recs):
+            if r['e'] == 'Alloc':
+                for k, b in enumerate(r['init']):
+                    sto[r['va'] + k] = b
+            elif r['e'] == 'Sto':
+                for a0, bs in r['chg']:
+                    for k, b in enumerate(bs):
+                        sto[a0 + k] = b
+                if len(r['chg']) == 1 and r['chg'][0][0] + len(r['chg'][0][1]) in sto and \
+                        recs[i + 1]['e'] == 'Quiesce' and not recs[i + 1]['pend']:
+                    cands.append((i, sto[r['chg'][0][0] + len(r['chg'][0][1])]))
+        if not cands:
+            return None
+        i, cur = rng.choice(cands)
+        recs[i]['chg'][0][1].append(cur ^ 0x10)      # certainly not the byte that is there
         return recs
 
-    def early_done(recs, rng):        # completion before the last answer was consumed
-        i = pick(recs, rng, lambda r: r['e'] == 'Done')
-        if i is None or i < 2 or recs[i - 1]['e'] != 'Take':
+    def early_done(recs, rng):        # completion before the answer to the last piece was consumed
+        snd = _sends(recs)
+        i = pick(recs, rng, lambda i, r: r['e'] == 'Done' and i >= 2 and recs[i - 1]['e'] == 'Take' and
+                 snd.get(recs[i - 1]['r'], {}).get('c') == r['c'] and snd[recs[i - 1]['r']]['k'] != 'flush')
+        if i is None:
             return None
         recs[i - 1], recs[i] = recs[i], recs[i - 1]
         return recs
 
     def double_done(recs, rng):
-        i = pick(recs, rng, lambda r: r['e'] == 'Done')
+        i = pick(recs, rng, lambda i, r: r['e'] == 'Done')
         if i is None:
             return None
         return recs[:i + 1] + [dict(recs[i])] + recs[i + 1:]
 
     def piece_off_by_one(recs, rng):  # a piece one byte short
-        i = pick(recs, rng, lambda r: r['e'] == 'Send' and r['k'] in ('h2d', 'd2h') and r['n'] > 1)
+        i = pick(recs, rng, lambda i, r: r['e'] == 'Send' and r['k'] in ('h2d', 'd2h') and r['n'] > 1)
         if i is None:
             return None
         recs[i]['n'] -= 1
@@ -401,26 +457,54 @@ def api_corruptions():
             recs[i]['d'] = recs[i]['d'][:-1]
         return recs
 
-    def drop_flush(recs, rng):        # a needed flush is not sent
-        fl = [i for i, r in enumerate(recs) if r['e'] == 'Send' and r['k'] == 'flush']
-        if not fl:
+    def drop_flush(recs, rng):        # the only flush between a finished kernel and a copy is not sent
+        if any(r['e'] in ('Free', 'Panic', 'Ctx') and r.get('ctx', 1) != 1 for r in recs) or \
+                any(r['e'] in ('Free', 'Panic') for r in recs):
             return None
-        c = recs[fl[0]]['c']
-        gone = {recs[i]['r'] for i in fl if recs[i]['c'] == c}
+        st, snd = _starts(recs), _sends(recs)
+        epoch, fin_ep, fin_any, first_launch, allocs_after = 0, 0, False, None, False
+        fep, flushes, cands = {}, [], []                   # flushes: (epoch when sent, command)
+        for i, r in enumerate(recs):
+            if r['e'] == 'Send' and r['k'] == 'launch':
+                epoch += 1
+                first_launch = first_launch if first_launch is not None else i
+            elif r['e'] == 'Rsp' and snd.get(r['r'], {}).get('k') == 'launch':
+                epoch += 1
+                fin_ep, fin_any = epoch, True
+            elif r['e'] == 'Alloc' and first_launch is not None:
+                allocs_after = True                          # a buffer younger than a kernel may be clean
+            elif r['e'] == 'Start' and r['k'] in ('h2d', 'd2h') and fin_any:
+                fep[r['c']] = fin_ep                         # a kernel had finished when the copy started
+            elif r['e'] == 'Send' and r['k'] == 'flush':
+                flushes.append((epoch, r['c']))
+            elif r['e'] == 'Send' and r['k'] in ('h2d', 'd2h') and not allocs_after:
+                c = r['c']
+                if c in fep and st[c]['n'] > 0 and {fc for ep, fc in flushes if ep >= fep[c]} == {c}:
+                    cands.append(c)
+        if not cands:
+            return None
+        c = rng.choice(sorted(set(cands)))
+        gone = {r['r'] for r in recs if r['e'] == 'Send' and r['k'] == 'flush' and r['c'] == c}
         return [r for r in recs if not ((r['e'] == 'Send' and r['k'] == 'flush' and r['c'] == c) or
                                         (r['e'] in ('Rsp', 'Take') and r['r'] in gone))]
 
-    def wrong_gpu(recs, rng):
-        if recs[0].get('gpus', 1) < 2:
+    def wrong_gpu(recs, rng):         # (only where the page table is known: the owner of the page is certain)
+        if recs[0].get('gpus', 1) < 2 or not recs[0].get('pt'):
             return None
-        i = pick(recs, rng, lambda r: r['e'] == 'Send' and r['k'] in ('h2d', 'd2h'))
+        i = pick(recs, rng, lambda i, r: r['e'] == 'Send' and r['k'] in ('h2d', 'd2h'))
         if i is None:
             return None
         recs[i]['g'] = recs[i]['g'] % recs[0]['gpus'] + 1
         return recs
 
-    def hang(recs, rng):              # a command left behind
-        i = pick(recs, rng, lambda r: r['e'] == 'Done')
+    def hang(recs, rng):              # a command with bytes to move is left behind, its last answer was a piece's
+        snd, st = _sends(recs), _starts(recs)
+        last_take = {}
+        for r in recs:
+            if r['e'] == 'Take' and r['r'] in snd:
+                last_take[snd[r['r']]['c']] = snd[r['r']]['k']
+        i = pick(recs, rng, lambda i, r: r['e'] == 'Done' and st[r['c']]['k'] in ('h2d', 'd2h') and st[r['c']]['n'] > 0 and
+                 last_take.get(r['c'], 'piece') != 'flush')
         if i is None:
             return None
         c = recs[i]['c']
@@ -457,13 +541,30 @@ def dma_corruptions():
         recs[i]['d'][0] ^= 1
         return recs
 
-    def early_done(recs, rng):        # answer before the last memory response was consumed
+    def early_done(recs, rng):        # answer before the last memory response of the same copy was consumed
+        line = recs[0]['line']
+        queue, owner, alias_of = [], {}, {}
+        for r in recs:
+            if r['e'] == 'CPFwd':
+                alias_of[r['id']] = (r['a'] + r['n'] - 1) // line - r['a'] // line + 1
+            elif r['e'] == 'DMATake':
+                queue.append([r['id'], alias_of.get(r['id'], 0)])
+            elif r['e'] == 'Sub':
+                for q in queue:
+                    if q[1] > 0:
+                        q[1] -= 1
+                        owner[r['id']] = q[0]
+                        break
         i = pick(recs, rng, lambda r: r['e'] == 'DMADone')
         if i is None:
             return None
-        j = max(k for k in range(i) if recs[k]['e'] == 'DMARecv')
-        recs[j], recs[i] = recs[i], recs[j]
-        return recs if abs(i - j) >= 1 else None
+        mine = [k for k in range(i) if recs[k]['e'] == 'DMARecv' and owner.get(recs[k]['to']) == recs[i]['to']]
+        if not mine:
+            return None
+        j = mine[-1]
+        r = recs.pop(i)
+        recs.insert(j, r)
+        return recs
 
     def dup_done(recs, rng):
         i = pick(recs, rng, lambda r: r['e'] == 'CPDone' and r['k'] != 'flush')
@@ -497,6 +598,36 @@ def dma_corruptions():
             ('d2h_bytes_misplaced', d2h_misplaced), ('copy_forwarded_during_flush', fwd_during_flush)]
 
 
+def binding_selftest(ctx, tspec, trace_paths, corruptions):
+    """Every corruption is tried on the recorded traces (seeded order) until it applies; the corrupted trace must be
+    rejected.  The corruptions only produce traces that are certainly invalid (see api_corruptions), so an
+    acceptance means a vacuous trace specification."""
+    parts = [recs for p in trace_paths for _, recs in vlib.split_traces(p)]
+    rng = random.Random(ctx.seed)
+    order = list(range(len(parts)))
+    rng.shuffle(order)
+    results = []
+    for name, fn in corruptions:
+        for i in order:
+            if len(parts[i]) > 700:          # keep the self-test cheap
+                continue
+            bad = fn(copy.deepcopy(parts[i]), rng)
+            if bad is None:
+                continue
+            p = os.path.join(ctx.scratch, 'selftest_%s.ndjson' % name)
+            vlib.write_ndjson(p, bad)
+            v = ctx.validate_trace(tspec['dirs'], tspec['module'], tspec['cfg'], p)
+            if v['accepted']:
+                keep = os.path.join(vlib.VERIF, 'replays', ctx.pid)
+                os.makedirs(keep, exist_ok=True)
+                vlib.write_ndjson(os.path.join(keep, 'selftest_accepted_%s.ndjson' % name), bad)
+                raise vlib.Infra('binding self-test: corruption %r was ACCEPTED by %s (trace kept in replays/%s)' % (
+                    name, tspec['module'], ctx.pid))
+            results.append({'corruption': name, 'rejected_at': v['highwater'], 'violated': v['violated']})
+            break
+    return results
+
+
 # --------------------------------------------------------------------------- the check
 def run(ctx, selftest=False):
     thorough = ctx.tier == 'thorough'
@@ -518,10 +649,14 @@ def run(ctx, selftest=False):
     expect_violation(ctx, 'MC_asimpl_hang.cfg', ['NoHang'])
     expect_violation(ctx, 'MC_asimpl_ctx.cfg', ['RoundTrip', 'OutsideUntouched'])
     expect_violation(ctx, 'MC_asimpl_empty.cfg', ['NoHang'])
+    r = ctx.tlc_expect_ok(['memcopy'], 'MC_MemCopy.tla', 'MC_MemCopy_2q.cfg', workers=W, timeout=1200)
+    ctx.log('MC_MemCopy_2q (two queues, a copy beside a running kernel): %d distinct states' % r.distinct)
+    expect_violation(ctx, 'MC_seed_clean_2q.cfg', ['RoundTrip', 'OutsideUntouched'])
     if thorough:
         r = ctx.tlc_expect_ok(['memcopy'], 'MC_MemCopy.tla', 'MC_gap_contract.cfg', workers=W, timeout=900)
         ctx.log('MC_gap_contract (memRangeOverlap gap, API contract): holds, %d states' % r.distinct)
-        for cfg in ('MC_MemCopy_ctx.cfg', 'MC_MemCopy_big.cfg', 'MC_MemCopy_empty.cfg', 'MC_nogap_nocontract.cfg'):
+        for cfg in ('MC_MemCopy_ctx.cfg', 'MC_MemCopy_big.cfg', 'MC_MemCopy_empty.cfg', 'MC_nogap_nocontract.cfg',
+                    'MC_seed_clean_1q.cfg'):
             r = ctx.tlc_expect_ok(['memcopy'], 'MC_MemCopy.tla', cfg, workers=W, timeout=3000)
             ctx.log('%s: %d distinct states' % (cfg, r.distinct))
         expect_violation(ctx, 'MC_gap_nocontract.cfg', ['RoundTrip', 'OutsideUntouched'])
@@ -539,6 +674,8 @@ def run(ctx, selftest=False):
     behs2, _ = ctx.simulate(['memcopy'], 'MemCopyScen.tla', 'MemCopyScen_ctx.cfg', num=nb // 2, depth=90)
     api_scen = [scen_from_behaviour(b, i, rng, 'bench', False) for i, b in enumerate(behs)]
     api_scen += [scen_from_behaviour(b, 500 + i, rng, 'bench', True) for i, b in enumerate(behs2)]
+    behs3, _ = ctx.simulate(['memcopy'], 'MemCopyScen.tla', 'MemCopyScen_2q.cfg', num=nb, depth=110)
+    api_scen += [scen_from_behaviour(b, 600 + i, rng, 'bench', False) for i, b in enumerate(behs3)]
     nreal = 6 if thorough else 1
     api_scen += [scen_from_behaviour(b, 700 + i, rng, 'r9nano', False) for i, b in enumerate(behs[:nreal])]
     api_scen += [scen_from_behaviour(b, 800 + i, rng, 'emu', False) for i, b in enumerate(behs[nreal:2 * nreal])]
@@ -622,10 +759,10 @@ def run(ctx, selftest=False):
                                         'completion_before_last_answer')]
         dc = [c for c in dc if c[0] in ('answered_before_last_response', 'd2h_bytes_misplaced',
                                         'copy_forwarded_during_flush')]
-    a = common.selftest_binding(ctx, T_API, t1, ac)
-    b = common.selftest_binding(ctx, T_DMA, td2, dc)
+    a = binding_selftest(ctx, T_API, traces, ac)
+    b = binding_selftest(ctx, T_DMA, [td2, td1], dc)
     ctx.cov['binding_selftest'] = a + b
-    if len(a) < len(ac) - 1 or len(b) < len(dc) - 1:
+    if len(a) < 3 or len(b) < 3:
         raise vlib.Infra('binding self-test: only %d/%d corruptions applicable' % (len(a), len(b)))
     ctx.assumptions += [
         'akitabench mini engine / fake connection stand in for akita SerialEngine / DirectConnection (bench worlds)',
